@@ -106,6 +106,16 @@ class ReqRun:
             return
         if ev == "peer_close":
             kw = {"s": kw["conn"], "how": kw["how"]}
+        if "s" in kw:
+            # sessions are numbered in the order they were established: a TCP connection that the owner dropped before
+            # its pair-verify finished never was a session of the request plane (and nothing is logged about it)
+            sid = self.__dict__.setdefault("_sid", {})
+            raw = kw["s"]
+            if ev == "session":
+                sid[raw] = len(sid) + 1
+            if raw not in sid:
+                return
+            kw = dict(kw, s=sid[raw])
         rec = {"ev": ev, "t": int(round(self.loop.time() * TPS))}
         rec.update(kw)
         self.events.append(rec)
